@@ -328,7 +328,7 @@ fn gen_setup(ctx: &Ctx, rng: &mut Rng) -> Setup {
     // --path may also name the default directory explicitly (a value equal to the default is still a
     // given value)
     let path_spelling = rng
-        .pick(&["/w/p", "./p", "p", "p/", "./contracts", "contracts", "/w/contracts", "./t"])
+        .pick(&["/w/p", "./p", "p", "p/", "./contracts", "contracts", "/w/contracts", "./t", "./nope", "/w/cfg.toml"])
         .to_string();
     let toml_file = rng.pick(&["/w/cfg.toml", "/w/conf/Solstat.toml"]).to_string();
     let mut toml = None;
@@ -361,7 +361,7 @@ fn gen_setup(ctx: &Ctx, rng: &mut Rng) -> Setup {
             }
             lists.push(v);
         }
-        let tpath = rng.pick(&["/w/t", "./t", "t"]).to_string();
+        let tpath = rng.pick(&["/w/t", "./t", "t", "/w/t", "./t", "./nope"]).to_string();
         let text = crate::c18::toml_text(&tpath, &lists[0], &lists[1], &lists[2]);
         world.put_file(&toml_file, text.into_bytes(), Fault::None);
         toml = Some(TomlModel {
@@ -569,7 +569,22 @@ pub fn judge(s: &Setup, ctx: &Ctx) -> Judged {
     };
     let want_abs = s.spec.world.resolve(std::path::Path::new(&want_dir));
     if !s.spec.world.is_dir(&want_abs) {
-        // the selected directory does not exist: the property does not say what happens
+        // The selected directory does not exist. The property does not say how the run ends, but it
+        // does say which directory is analysed: quietly analysing another one is a violation.
+        if out.abort.is_none() {
+            if let Some(ov) = &out.opts {
+                let got_abs = s.spec.world.resolve(std::path::Path::new(&ov.path));
+                if got_abs != want_abs {
+                    j.violation = Some((
+                        "fell_back_to_another_directory".into(),
+                        format!(
+                            "argv {:?}: the directory comes from {} = {}, which does not exist; the run did not fail but analysed {} instead and ended with status 0",
+                            argv, why, want_abs, got_abs
+                        ),
+                    ));
+                }
+            }
+        }
         return j;
     }
     // everything named exists and is well-formed: the run must succeed
@@ -701,6 +716,15 @@ impl Property for C14 {
     );
         r.probe("default_contracts_used", s.path_arg.is_none() && s.toml.is_none());
         r.probe("failed_status_seen", j.status != 0);
+    r.probe(
+        "selected_directory_missing_while_another_exists",
+        !j.has_unknown
+            && match (&s.path_arg, &s.toml) {
+                (Some(p), _) => !s.spec.world.is_dir(&s.spec.world.resolve(std::path::Path::new(p))),
+                (None, Some(t)) => !s.spec.world.is_dir(&s.spec.world.resolve(std::path::Path::new(&t.path))),
+                _ => false,
+            },
+    );
         r.interleavings.push(j.decisions);
         let h = hash_str(82, &format!("{:?}{:?}", argv, s.toml));
         r.states.push(mix(h ^ j.status as u64));
@@ -821,18 +845,19 @@ impl Property for C14 {
             "toml_path_decides",
             "path_flag_overrides_toml",
             "path_flag_spells_the_default_dir",
+            "selected_directory_missing_while_another_exists",
             "default_contracts_used",
             "failed_status_seen",
         ]
     }
     fn rule(&self) -> String {
-        "Table part (complete): for every documented name (read from /repo/docs/identified-*.md and /repo/Solstat.toml at run time) and 6 letter-casings: accepted, same pattern for all casings, distinct names -> distinct patterns, selected pattern runs by default, every default pattern selectable by a documented name (or the snake-case of its own identifier), junk names rejected, and the selected pattern behaves like the detector documented under that name on a signature corpus (every canonical fragment x every pragma). Process part (sampled): a simulated process run through the real Opts::new for argv in {none, --path/-p, --toml/-t, both in both orders} x ./contracts present/absent x toml lists = seeded subsets/orders/casings of documented names with junk names at seeded positions x toml path; a reference model gives the expected pattern lists (in order) and directory (--path, else toml path, else ./contracts); unknown name => non-zero status and no write in the journal. Runs whose selected directory does not exist are not judged. Non-trivial = non-lowercase casing, unknown name, or the toml's path decides; distinct = distinct (argv, toml) hash, resp. distinct (category, spelled name).".into()
+        "Table part (complete): for every documented name (read from /repo/docs/identified-*.md and /repo/Solstat.toml at run time) and 6 letter-casings: accepted, same pattern for all casings, distinct names -> distinct patterns, selected pattern runs by default, every default pattern selectable by a documented name (or the snake-case of its own identifier), junk names rejected, and the selected pattern behaves like the detector documented under that name on a signature corpus (every canonical fragment x every pragma). Process part (sampled): a simulated process run through the real Opts::new for argv in {none, --path/-p, --toml/-t, both in both orders} x ./contracts present/absent x toml lists = seeded subsets/orders/casings of documented names with junk names at seeded positions x toml path; a reference model gives the expected pattern lists (in order) and directory (--path, else toml path, else ./contracts); unknown name => non-zero status and no write in the journal. If the selected directory does not exist, how the run ends is not judged, but quietly analysing another directory is a violation. Non-trivial = non-lowercase casing, unknown name, or the toml's path decides; distinct = distinct (argv, toml) hash, resp. distinct (category, spelled name).".into()
     }
     fn assumptions(&self) -> Vec<String> {
         vec![
             "trusted table: configuration name -> detector function documented under that name (sim/src/c14.rs detector_rows)".into(),
             "generated toml files always carry all four keys of the sample (path, optimizations, vulnerabilities, qa); whitespace variants and near-miss spellings are not generated".into(),
-            "what happens when the selected directory does not exist is not judged".into(),
+            "how a run ends when the selected directory does not exist is not judged (only that no other directory is analysed instead)".into(),
             "the five lines of main() are mirrored by the driver; the simbin engine runs the real main with real argv and exit status".into(),
         ]
     }
